@@ -19,7 +19,9 @@ if [ -f $SRC/demo.scm ]; then
 fi
 for c in $CHECKS; do
   echo "== check $c (quick) against the seeded tree"
-  VERIF_REPO=$SCR timeout 1500 ./check $c quick 2>&1 | grep -E "^VIOLATION|^  sig|quick:|INCONCLUSIVE|BUILD" | cut -c1-260 | head -8
+  VERIF_REPO=$SCR timeout 2400 ./check $c quick > /tmp/seedscr-$ID-$M.$c.out 2>&1; echo "exit=$?"
+  grep -E "^VIOLATION|^  sig|quick:|BUILD" /tmp/seedscr-$ID-$M.$c.out | cut -c1-260 | head -8
+  echo "inconclusive lines: $(grep -c '^INCONCLUSIVE' /tmp/seedscr-$ID-$M.$c.out)"; grep -E "^INCONCLUSIVE" /tmp/seedscr-$ID-$M.$c.out | cut -c1-200 | head -2
 done
 ./check --build
 rm -rf $SCR
